@@ -120,7 +120,8 @@ func (g *gen) in(lo, hi int) int {
 }
 func (g *gen) pick(xs ...string) string { return xs[g.r.Intn(len(xs))] }
 
-var priceMenu = []string{"1", "0.5", "2", "0.333333333333333333", "1.000000000000000001", "3.7", "0.142857142857142857", "2.5", "10", "0.999999999999999999", "7"}
+var priceMenu = []string{"1", "0.5", "2", "0.333333333333333333", "1.000000000000000001", "3.7", "0.142857142857142857", "2.5", "10", "0.999999999999999999", "7",
+	"0.666666666666666667", "4.666666666666666667", "6.666666666666666667", "0.7", "0.9", "1.1", "0.3", "0.35"}
 var tinyPrices = []string{"0.000000000000000001", "0.000000000000000003", "0.01"}
 var bigPrices = []string{"1000000", "123456789.123456789123456789", "1000000000000000000"}
 
@@ -558,6 +559,17 @@ func (g *gen) genTx(pm *Model) *Tx {
 	case x < 0.12+g.p.WAdversary+g.p.WForeign+g.p.WCancel+g.p.WModify && len(batchOpen) > 0:
 		return g.txModify(pm, batchOpen)
 	}
+	// operations attempted against auctions in any status (waiting, vesting, finished, cancelled)
+	if nA > 0 && g.chance(0.07) {
+		a := pm.Auctions[g.r.Intn(nA)]
+		if a.Status != StStarted {
+			g.intents[fmt.Sprintf("op_in_status_%d", a.Status)]++
+			if a.Type == TypeBatch && len(a.Bids) > 0 && g.chance(0.6) {
+				return g.txModify(pm, []*MAuction{a})
+			}
+			return g.txBid(pm, a, "status")
+		}
+	}
 	if len(open) == 0 {
 		if nA > 0 && g.chance(0.3) {
 			// bid on something that is not open
@@ -819,7 +831,7 @@ func (g *gen) txBid(pm *Model, a *MAuction, reason string) *Tx {
 			m.BidType = BidMany
 		}
 		// few distinct price levels with duplicates
-		levels := []string{"1", "1.5", "2", "0.75", "3", "0.333333333333333333", "1.000000000000000001", "5"}
+		levels := []string{"1", "1.5", "2", "0.75", "3", "0.333333333333333333", "1.000000000000000001", "5", "0.666666666666666667", "4.666666666666666667", "0.7", "0.9", "2.666666666666666667"}
 		if g.chance(0.2) {
 			m.Price = g.price()
 		} else {
@@ -847,6 +859,20 @@ func (g *gen) txBid(pm *Model, a *MAuction, reason string) *Tx {
 		if q.Cmp(cap) > 0 {
 			q = new(big.Int).Set(cap)
 		}
+		nearInt := false
+		if g.chance(0.2) {
+			// quantities whose product with the price lands within 1e-15 of an integer: the 18th-decimal
+			// rounding of a quotient or product decides on which side it falls
+			for k := int64(1); k <= 12; k++ {
+				r := new(big.Int).Mod(new(big.Int).Mul(big.NewInt(k), p), decUnit)
+				if r.Sign() != 0 && (r.Cmp(big.NewInt(1000)) < 0 || new(big.Int).Sub(decUnit, r).Cmp(big.NewInt(1000)) < 0) && big.NewInt(k).Cmp(cap) <= 0 {
+					q = big.NewInt(k)
+					nearInt = true
+					g.intents["near_integer_product"]++
+					break
+				}
+			}
+		}
 		if reason == "allowance" {
 			q = new(big.Int).Add(cap, bigOne)
 		}
@@ -859,8 +885,18 @@ func (g *gen) txBid(pm *Model, a *MAuction, reason string) *Tx {
 			lo := ceilMulDec(q, p)
 			hi := ceilMulDec(new(big.Int).Add(q, bigOne), p)
 			w := lo
-			if hi.Cmp(lo) > 0 && g.chance(0.5) {
-				w = new(big.Int).Add(lo, new(big.Int).Rand(g.r, new(big.Int).Sub(hi, lo)))
+			vr := g.r.Intn(4)
+			if nearInt {
+				vr = 1 + g.r.Intn(2)
+			}
+			switch vr {
+			case 0:
+				if hi.Cmp(lo) > 0 {
+					w = new(big.Int).Add(lo, new(big.Int).Rand(g.r, new(big.Int).Sub(hi, lo)))
+				}
+			case 1:
+				// floor(q*p): the quotient worth/price lands just below the integer q
+				w = floorMulDec(q, p)
 			}
 			if w.Sign() == 0 {
 				w = big.NewInt(1)
